@@ -412,7 +412,7 @@ func (a *Analyzer) buildElementTree(result *AnalysisResult) []LayoutElement {
 			// Mark overlapping paragraphs as consumed
 			if result.Paragraphs != nil {
 				for j, para := range result.Paragraphs.Paragraphs {
-					if bboxOverlaps(heading.BBox, para.BBox) {
+					if bboxOverlaps(heading.BBox, paragraphPageBBox(para)) {
 						consumedParaIndices[j] = true
 					}
 				}
@@ -435,7 +435,7 @@ func (a *Analyzer) buildElementTree(result *AnalysisResult) []LayoutElement {
 			// Mark overlapping paragraphs as consumed
 			if result.Paragraphs != nil {
 				for j, para := range result.Paragraphs.Paragraphs {
-					if bboxOverlaps(list.BBox, para.BBox) {
+					if bboxOverlaps(list.BBox, paragraphPageBBox(para)) {
 						consumedParaIndices[j] = true
 					}
 				}
@@ -507,6 +507,21 @@ func bboxOverlaps(a, b model.BBox) bool {
 
 	// Consider overlapping if >50% of smaller box is covered
 	return overlapArea > smallerArea*0.5
+}
+
+// paragraphPageBBox returns the paragraph's bounding box in page coordinates. Paragraphs built
+// from a reading-order column section carry line boxes whose X is relative to the column
+// (normalizeLineXPositions), while headings and lists are positioned in page coordinates;
+// the fragments always keep page coordinates.
+func paragraphPageBBox(para Paragraph) model.BBox {
+	var fragments []text.TextFragment
+	for _, line := range para.Lines {
+		fragments = append(fragments, line.Fragments...)
+	}
+	if len(fragments) == 0 {
+		return para.BBox
+	}
+	return fragmentsBBox(fragments)
 }
 
 // sortElementsByReadingOrder sorts elements according to reading order analysis.
